@@ -135,8 +135,9 @@ fn check(c: &Case, st: &mut Stats) -> Result<(), String> {
         if esi > k + 5000 {
             far = true;
         }
-        // per-block decoder, same history
-        if !block_done[sbn] {
+        // per-block decoder, same history (it keeps being fed after its first answer: every
+        // later answer must be the block as well)
+        {
             let want_block: Vec<u8> = layout[sbn].iter().flat_map(|_| std::iter::empty::<u8>()).collect::<Vec<u8>>();
             let _ = want_block;
             match block_decs[sbn].decode(std::iter::once(pkt.clone())) {
@@ -148,12 +149,15 @@ fn check(c: &Case, st: &mut Stats) -> Result<(), String> {
                     if bytes != want {
                         return Err(format!("block decoder {sbn} returned wrong bytes after step {step} (K={k}, {} distinct symbols, {} source)", got[sbn].len(), src_got[sbn]));
                     }
-                    block_done[sbn] = true;
-                    if src_got[sbn] < k {
+                    if !block_done[sbn] && src_got[sbn] < k {
                         solver_blocks += 1;
                     }
+                    block_done[sbn] = true;
                 }
                 None => {
+                    if block_done[sbn] {
+                        return Err(format!("block decoder {sbn} went back to 'not yet' after having answered (step {step})"));
+                    }
                     if src_got[sbn] == k {
                         return Err(format!("block decoder {sbn} answered 'not yet' although all {k} source packets were delivered (step {step})"));
                     }
@@ -183,6 +187,36 @@ fn check(c: &Case, st: &mut Stats) -> Result<(), String> {
                     return Err(format!("decoder went back to 'not yet' after having answered (step {step})"));
                 }
             }
+        }
+    }
+    // the distinct packets of every block once more, in ONE call to a fresh block decoder
+    // (a batch can enter code paths that one-per-call delivery answers before reaching)
+    for sbn in 0..z {
+        let k = pool.ks[sbn];
+        let mut seen = HashSet::new();
+        let batch: Vec<EncodingPacket> = seq
+            .iter()
+            .map(|&pi| &pool.packets[pi])
+            .filter(|p| p.payload_id().source_block_number() as usize == sbn && seen.insert(p.payload_id().encoding_symbol_id()))
+            .cloned()
+            .collect();
+        if batch.is_empty() {
+            continue;
+        }
+        let n_batch = batch.len();
+        let mut d = SourceBlockDecoder::new(sbn as u8, &cfg, k as u64 * t as u64);
+        if let Some(th) = threshold(c.backend) {
+            d.verif_set_sparse_threshold(th);
+        }
+        if let Some(bytes) = d.decode(batch) {
+            let start: usize = pool.ks[..sbn].iter().map(|&kk| kk as usize * t).sum();
+            let mut want: Vec<u8> = data[start.min(f)..(start + k as usize * t).min(f)].to_vec();
+            want.resize(k as usize * t, 0);
+            if bytes != want {
+                return Err(format!("block decoder {sbn} returned wrong bytes for a batch of {n_batch} distinct packets (K={k}, {} source)", src_got[sbn]));
+            }
+        } else if src_got[sbn] == k {
+            return Err(format!("block decoder {sbn}: batch with all {k} source packets answered 'not yet'"));
         }
     }
     let kprime_pad = pool.ks.iter().any(|&k| rf::params(k).kp > k);
@@ -236,7 +270,7 @@ fn signature(_: &Case, msg: &str) -> String {
 }
 
 pub fn run(ctx: &Ctx, rep: &mut Report) {
-    rep.rule = "generated object (Al in {1,2,4,8}, T multiple of Al up to 192 weighted to 1/Al/63,64,65 strides, Z <= 6, N <= 5, K per block <= 64 (quick), F with F mod T uniform incl. F < T and F = 1, data in {random, zero, 0xFF, one-hot, position-coded}) and a delivery history: a generated list of indices (with repetition) into the pool of the encoder's source packets plus repair packets with near/uniform/far ESIs, in half the cases completed with every missing source packet; optional serialize/deserialize; decoder back-end default/sparse/dense. Thorough adds K around the dense/sparse switch (241..260), K in 1000..1100 and K >= 10000. Oracle: after every Decoder::decode call the answer is None or exactly the object (length F); Some once all source packets were delivered; never back to None; the same history through per-block decoders gives None or the zero-padded block. Non-trivial = at least one block completed through the solver (>= K distinct symbols with a source symbol missing); distinct by (object, history).".into();
+    rep.rule = "generated object (Al in {1,2,4,8}, T multiple of Al up to 192 weighted to 1/Al/63,64,65 strides, Z <= 6, N <= 5, K per block <= 64 (quick), F with F mod T uniform incl. F < T and F = 1, data in {random, zero, 0xFF, one-hot, position-coded}) and a delivery history: a generated list of indices (with repetition) into the pool of the encoder's source packets plus repair packets with near/uniform/far ESIs, in half the cases completed with every missing source packet; optional serialize/deserialize; decoder back-end default/sparse/dense. Thorough adds K around the dense/sparse switch (241..260), K in 1000..1100 and K >= 10000. Oracle: after every Decoder::decode call the answer is None or exactly the object (length F); Some once all source packets were delivered; never back to None; the same history through per-block decoders (fed beyond their first answer) gives None or the zero-padded block, and so does one batch call with the block's distinct packets. Non-trivial = at least one block completed through the solver (>= K distinct symbols with a source symbol missing); distinct by (object, history).".into();
     let n = ctx.tier.pick(50_000u64, 400_000);
     rep.absorb("small", run_sharded("C01", "small", ctx.seed, n, 32, || strategy(64, 6, 400), check, to_json, signature));
     let n = ctx.tier.pick(1_500u64, 8_000);
